@@ -82,6 +82,34 @@ def ev_reorg_renumber(after_names, poll):
     return ('reorg-renumber' + (':poll' if poll else ''), f)
 
 
+def ev_fall(after_names):
+    '''The daemon drops its tip block (invalidateblock, a lagging fail-over daemon): its height
+    FALLS below the index; the block's transactions are unconfirmed again.'''
+    def f(s):
+        u = mpuniverse.universe()
+        s.daemon.add_known(s.x_final_blocks)
+        s.daemon.set_chain(u.sim.blocks)
+        s.daemon.set_mempool([u.txs[x] for x in mpuniverse.NAMES if x in after_names])
+        s.x_final_names = tuple(after_names)
+        s.x_final_blocks = u.sim.blocks
+    return ('daemon-falls', f)
+
+
+def ev_outgrow(after_names):
+    '''... and then grows two other blocks, outgrowing the index.'''
+    def f(s):
+        u = mpuniverse.universe()
+        sim = u.sim.copy(b'W')
+        sim.add_block([sim.cb()], 'cb')
+        sim.add_block([sim.cb()], 'cb')
+        s.daemon.set_chain(sim.blocks)
+        s.daemon.set_mempool([u.txs[x] for x in mpuniverse.NAMES if x in after_names])
+        s.x_final_names = tuple(after_names)
+        s.x_final_blocks = sim.blocks
+        s.loop.fire_polling_timer()
+    return ('daemon-outgrows:poll', f)
+
+
 S0S1 = [((), ('t1', 't2', 't3', 't4', 't6', 't7')),
         (('t1',), ('t1', 't2', 't4', 't5')),
         (('t1', 't2', 't4'), ('t1', 't2', 't3', 't4', 't6'))]
@@ -109,7 +137,12 @@ def events_for(s1):
            ('confirm-then-reorg-renumber', lambda: [
                ev_block(('t1', 't2'), tuple(x for x in s1 if x not in ('t1', 't2')), True),
                'tick', 'tick',
-               ev_reorg_renumber(tuple(x for x in s1 if x not in ('t1', 't6')), True)])]
+               ev_reorg_renumber(tuple(x for x in s1 if x not in ('t1', 't6')), True)]),
+           # the daemon's height falls below the index (the mempool tracker sees that before
+           # the block processor can do anything about it), later another branch outgrows it
+           ('block-then-daemon-falls-then-outgrows', lambda: [
+               ev_block(('t1',), tuple(x for x in s1 if x != 't1'), True), 'tick', 'tick',
+               ev_fall(tuple(s1)), 'tick', 'tick', ev_outgrow(tuple(s1))])]
     return out
 
 
@@ -156,6 +189,10 @@ def run_case(case, res):
         bad = mpuniverse.check_internal(s, u)
         if bad:
             failures.append((bad[0][0] + ':at-end:' + evname, bad[0][1]))
+        if s.mislabelled_reports:
+            # a refresh is reported for the daemon height its listing was made at
+            failures.append(('refresh-reported-under-another-height-than-its-listing:' + evname,
+                             dict(s.mislabelled_reports[0])))
         if s.db.state.height != len(s.x_final_blocks) - 1:
             failures.append(('index-not-at-daemon-height-at-end:' + evname, {}))
         else:
@@ -265,10 +302,12 @@ def cases_for(tier):
     bound = 1 if tier == 'quick' else 2
     cases = []
     for pair in range(len(S0S1)):
-        for ev in range(10):
+        for ev in range(11):
             if 't7' not in S0S1[pair][1] and ev == 8:
                 continue
             if ev == 9 and pair != 2:
+                continue
+            if ev == 10 and pair == 2:
                 continue
             if tier == 'quick' and pair == 2 and ev not in (3, 4, 6, 7, 9):
                 continue
